@@ -1098,8 +1098,8 @@ http_srv_recv_done_cb(tp_task_p tptask, int error, io_buf_p buf,
 	char straddr[STR_ADDR_LEN];
 	const uint8_t *ptm;
 	uint16_t host_port;
-	size_t i, tm;
-	int action;
+	size_t i, tm, rq_ofs[9];
+	int action, buf_is_rcv;
 	sockaddr_storage_t addr;
 
 	SYSLOGD_EX(LOG_DEBUG, "...");
@@ -1166,9 +1166,42 @@ continue_recv:
 		tm = (IO_BUF_TR_SIZE_GET(buf) + buf->used);
 		if (tm > srv->s.rcv_io_buf_max_size)
 			goto drop_cli_without_hdr; /* Request too big. */
+		/* Request pointers (header already parsed, data receiving)
+		 * point into buf: keep them as offsets, realloc may move it. */
+#define HTTP_SRV_PTR2OFF(__p, __i)					\
+		rq_ofs[(__i)] = ((NULL != (__p)) ?			\
+		    (size_t)((const uint8_t*)(__p) - buf->data) : (~((size_t)0)))
+#define HTTP_SRV_OFF2PTR(__p, __i)					\
+		if ((~((size_t)0)) != rq_ofs[(__i)]) {			\
+			(__p) = (cli->rcv_buf->data + rq_ofs[(__i)]);	\
+		}
+		HTTP_SRV_PTR2OFF(cli->req.hdr, 0);
+		HTTP_SRV_PTR2OFF(cli->req.data, 1);
+		HTTP_SRV_PTR2OFF(cli->req.host, 2);
+		HTTP_SRV_PTR2OFF(cli->req.line.method, 3);
+		HTTP_SRV_PTR2OFF(cli->req.line.uri, 4);
+		HTTP_SRV_PTR2OFF(cli->req.line.scheme, 5);
+		HTTP_SRV_PTR2OFF(cli->req.line.host, 6);
+		HTTP_SRV_PTR2OFF(cli->req.line.abs_path, 7);
+		HTTP_SRV_PTR2OFF(cli->req.line.query, 8);
+		buf_is_rcv = (cli->buf == cli->rcv_buf);
 		error = io_buf_realloc(&cli->rcv_buf, 0, tm);
 		if (0 != error)
 			goto err_out;
+		if (0 != buf_is_rcv) { /* Old block is gone. */
+			cli->buf = cli->rcv_buf;
+		}
+		HTTP_SRV_OFF2PTR(cli->req.hdr, 0);
+		HTTP_SRV_OFF2PTR(cli->req.data, 1);
+		HTTP_SRV_OFF2PTR(cli->req.host, 2);
+		HTTP_SRV_OFF2PTR(cli->req.line.method, 3);
+		HTTP_SRV_OFF2PTR(cli->req.line.uri, 4);
+		HTTP_SRV_OFF2PTR(cli->req.line.scheme, 5);
+		HTTP_SRV_OFF2PTR(cli->req.line.host, 6);
+		HTTP_SRV_OFF2PTR(cli->req.line.abs_path, 7);
+		HTTP_SRV_OFF2PTR(cli->req.line.query, 8);
+#undef HTTP_SRV_PTR2OFF
+#undef HTTP_SRV_OFF2PTR
 		buf = cli->rcv_buf;
 		tp_task_buf_set(tptask, cli->rcv_buf);
 		return (TP_TASK_CB_CONTINUE); /* Continue receive. */
@@ -1209,7 +1242,7 @@ stop_and_drop_with_http_err:
 
 	/* Request methods additional handling. */
 	switch (cli->req.line.method_code) {
-	case HTTP_REQ_METHOD_UNKNOWN:
+	default: /* UNKNOWN, PUT, DELETE, OPTIONS, NOTIFY...: body must not be parsed as next request. */
 		if (0 == http_hdr_val_get(cli->req.hdr, cli->req.hdr_size,
 		    (const uint8_t*)"content-length", 14, &ptm, &tm)) {
 			goto handle_content_length;
